@@ -387,6 +387,9 @@ def run(ctx, rec):
     for case in X.directed_cases(rng, ctx.mine):
         run_case(case, rec)
         k += 1
+        if k % 3 == 0:
+            rec.events["twin-named-cases"] += 1
+            run_case(X.twin_named_case(case), rec)
         if k % 2 == 0:
             # the same family with the node occurring several times as one shared object (DAG)
             sc = X.shared_case(rng, case, form=(k // 2) % len(X.DAG_FORMS))
